@@ -244,8 +244,21 @@ func (w *dnsWorld) checkForwardersRetired(when string) {
 	if !w.on(dnsModeC09) {
 		return
 	}
+	// Forwarders that are in the controller's forwarder cache at this point are
+	// legitimately open: a forwarder created by a late background refresh is stored
+	// after (or while) ResetDnsForwarders walked the cache. Only forwarders that are no
+	// longer cached (retired, evicted, lost the store race) must have been closed.
+	cached := map[*dnsFwd]bool{}
+	w.ctl.dnsForwarderCache.Range(func(_, v any) bool {
+		if e, ok := v.(*cachedDnsForwarder); ok {
+			if f, ok := e.forwarder.(*dnsFwd); ok {
+				cached[f] = true
+			}
+		}
+		return true
+	})
 	for _, f := range w.fwds {
-		if f.id >= w.fwdsAtReset {
+		if cached[f] {
 			continue
 		}
 		if f.closes != 1 {
@@ -254,7 +267,7 @@ func (w *dnsWorld) checkForwardersRetired(when string) {
 		}
 	}
 	for _, sk := range w.socks {
-		if sk.fwd == nil || sk.fwd.id >= w.fwdsAtReset {
+		if sk.fwd == nil || cached[sk.fwd] {
 			continue
 		}
 		if !sk.pc.IsClosed() {
@@ -266,7 +279,7 @@ func (w *dnsWorld) checkForwardersRetired(when string) {
 		}
 	}
 	for _, tc := range w.tconns {
-		if tc.fwd == nil || tc.fwd.id >= w.fwdsAtReset {
+		if tc.fwd == nil || cached[tc.fwd] {
 			continue
 		}
 		if !tc.cli.IsClosed() {
